@@ -103,7 +103,8 @@ def yieldCond (g : Grammar) (d : Dec) (next : Option Nat) (rest : Str) (lexeme :
 def lexGo (g : Grammar) (d : Dec) : Str → Nat → Option Nat → LS → List Token → List Token × Tail
   | [], _, _, _, acc => (acc.reverse, .eof)
   | ch :: rest, i, prev, ls, acc =>
-    if !charAllowed g ch then (acc.reverse, .lexerr ((i : Int) - ls.lexeme.length + 1))
+    if !charAllowed g ch then
+      (acc.reverse, .lexerr (if ls.lexeme.isEmpty then (i : Int) else (i : Int) - ls.lexeme.length + 1))
     else
       let next := rest.head?
       let ls1 := lexChar g ch prev next ls
